@@ -17,8 +17,8 @@ BUDGET = {'quick': 420, 'thorough': 3000}
 SOURCES = ['src/dtaidistance/subsequence/subsequencealignment.py', 'src/dtaidistance/dtw.py', 'src/DTAIDistanceC/DTAIDistanceC/dd_dtw.c']
 FUNCTIONS = ['SubsequenceAlignment.__init__/align/_compute_matching/best_match/kbest_matches/_best_matches', 'SAMatch.value/distance/segment/path',
              'matching_function_bestpath/startpoint/endpoint', 'dtw.warping_paths, dtw.best_path (penalty in internal representation)',
-             'dd_dtw.c dtw_warping_paths with psi=(0,0,len,len), dtw_expand_wps']
-BOUNDS = {'quick': {'|query|': '1..2', '|series|': '1..4', 'penalty': 'symbolic >= 0', 'k': '1..3, None', 'overlap': '0,1', 'minlength': '1,2', 'maxlength': 'None,2'},
+             'dd_dtw.c dtw_warping_paths with psi=(0,0,len,len) (no window: the compact matrix is the full matrix)']
+BOUNDS = {'quick': {'|query|': '1..2', '|series|': '1..4', 'penalty': 'symbolic >= 0', 'k': '2, None', 'overlap': '0,1', 'minlength': '1,2', 'maxlength': 'None,2'},
           'thorough': {'|query|': '1..3', '|series|': '1..5', 'penalty': 'symbolic >= 0', 'k': '1..3, None', 'overlap': '0,1,2', 'minlength': '1,2,3', 'maxlength': 'None,2,3'}}
 OUTSIDE = ['best_matches_knee (EWMA heuristic), max_rangefactor', 'multivariate series', 'the Cython glue of the C engine', 'floating point rounding']
 ASSUMPTIONS = ['np.ceil(max + 1) (the "used" marker) modelled as any value in [max+1, max+2)', 'oracle: min over start points of spec_dtw(query, series[b..e])',
